@@ -26,17 +26,19 @@ class C01(core.Check):
 
     def space(self):
         irs = al.ir_space(self.tier, with_b4=False)
+        # (style, emitter default text, word wrap, parser keeps default sentence in prose)
         if self.tier == "thorough":
-            opts = [(s, e, w) for s in rt.DOC_KINDS for e in (True, False) for w in (True, False)]
+            opts = [(s, e, w, p) for s in rt.DOC_KINDS for e in (True, False) for w in (True, False) for p in (True, False)]
         else:
-            opts = [(s, True, True) for s in rt.DOC_KINDS] + [("rest", False, True), ("numpydoc", True, False)]
+            opts = [(s, True, True, True) for s in rt.DOC_KINDS] + [("rest", False, True, True), ("numpydoc", True, False, True)]
+            opts += [(s, True, True, False) for s in rt.DOC_KINDS]
         self._irs, self._opts = irs, opts
         return _Space(irs, opts)
 
     def run_case(self, case):
         atoms, ret, ir = al.case_ir(case)
-        style, edd, ww = case["style"], case["edd"], case["ww"]
-        base = {"style": style, "edd": edd, "ww": ww}
+        style, edd, ww, pedd = case["style"], case["edd"], case["ww"], case["pedd"]
+        base = {"style": style, "edd": edd, "ww": ww, "pedd": pedd}
         cf = dict(base, **rt.case_facts(case, atoms, ret))
         spy = rt.StyleSpy()
         try:
@@ -46,7 +48,7 @@ class C01(core.Check):
         nontrivial = text if (atoms or ret is not None or case["kwargs"]) else None
         spy.reset()
         try:
-            back = rt.parse_kind(style, text)
+            back = rt.parse_kind(style, text, {"pedd": pedd})
         except Exception as e:
             return [site(False, dict(cf, field="parse"), fail="parse_raise", **core.exc_obs(e))], nontrivial, "parse-raise"
         sites = [site(True, dict(cf, field="parse"))]
@@ -68,7 +70,7 @@ class _Space(core.Space):
     def __getitem__(self, i):
         j, o = divmod(i, len(self.opts))
         c = dict(self.irs[j])
-        c["style"], c["edd"], c["ww"] = self.opts[o]
+        c["style"], c["edd"], c["ww"], c["pedd"] = self.opts[o]
         return c
 
     def describe(self):
